@@ -471,6 +471,9 @@ func runC15(r *Rng, n int, tier string) {
 	for i := 0; i < ne/2+4; i++ {
 		emit(c15Mixed(r, fmt.Sprintf("mixed-%d", i)))
 	}
+	for i := 0; i < ne/3+6; i++ {
+		emit(c15SchemaTypes(r, fmt.Sprintf("schematypes-%d", i)))
+	}
 }
 
 func modelNameMatches(structName, table string) bool {
@@ -572,6 +575,89 @@ func c15Mixed(r *Rng, id string) Case {
 			if len(m.Results) == 0 || m.Results[0] != p.want["Name"] {
 				problems = append(problems, fmt.Sprintf("package %s: GetName returns %v, expected %s", p.name, m.Results, p.want["Name"]))
 			}
+		}
+	}
+	sort.Strings(problems)
+	oracle := ""
+	if len(problems) > 0 {
+		oracle = strings.Join(problems[:min(len(problems), 3)], " | ")
+	}
+	return Case{ID: id, Kind: "e2e", In: in, Impl: obs, Oracle: oracle, Tags: tags}
+}
+
+// c15SchemaTypes: a db_type override names ONE type; a type of the same bare name in another schema (and columns
+// of it, in tables of either schema) must stay untouched
+func c15SchemaTypes(r *Rng, id string) Case {
+	schema := "CREATE SCHEMA audit;\nCREATE TYPE status AS ENUM ('open', 'closed');\nCREATE TYPE audit.status AS ENUM ('ok', 'failed');\n" +
+		"CREATE TABLE tickets (id bigint NOT NULL, state status NOT NULL, prev status, seen audit.status NOT NULL);\n" +
+		"CREATE TABLE audit.events (id bigint NOT NULL, outcome audit.status NOT NULL, before audit.status, ticket_state status NOT NULL);\n"
+	queries := "-- name: ListTickets :many\nSELECT * FROM tickets;\n\n-- name: ListEvents :many\nSELECT * FROM audit.events;\n\n" +
+		"-- name: TicketState :one\nSELECT state FROM tickets WHERE id = $1;\n\n-- name: EventOutcome :one\nSELECT outcome FROM audit.events WHERE id = $1;\n\n" +
+		"-- name: ByState :many\nSELECT id FROM tickets WHERE state = $1;\n\n-- name: ByOutcome :many\nSELECT id FROM audit.events WHERE outcome = $1;\n"
+	// (the type is spelled as the columns spell it: sqlc matches db_type against the written type name)
+	which := r.Intn(2)
+	dbt := []string{"status", "audit.status"}[which]
+	nullable := r.Chance(30)
+	ov := fmt.Sprintf(`{"db_type":%q,"go_type":"github.com/google/uuid.UUID","nullable":%v}`, dbt, nullable)
+	global := r.Bool()
+	conf := `{"version":"1","packages":[{"path":"db","name":"db","engine":"postgresql","schema":"schema.sql","queries":"query.sql","overrides":[` + ov + `]}]}`
+	if global {
+		conf = `{"version":"1","overrides":[` + ov + `],"packages":[{"path":"db","name":"db","engine":"postgresql","schema":"schema.sql","queries":"query.sql"}]}`
+	}
+	files := map[string]string{"schema.sql": schema, "query.sql": queries, "sqlc.json": conf}
+	tags := []string{"same-name-types-across-schemas", "db_type:" + dbt, fmt.Sprintf("nullable=%v", nullable)}
+	in := J{"kind": "schema-types", "files": files}
+	res := generate(files)
+	if !res.OK() {
+		e := firstLine(res.Stderr + res.Err + res.Panic)
+		return Case{ID: id, Kind: "e2e", In: in, Impl: J{"ok": false, "err": e}, Oracle: "generation failed for a valid override set: " + e, Tags: tags}
+	}
+	// what each column's type must be: the override's target where type and nullability match, the enum otherwise
+	pub, aud := "Status", "AuditStatus"
+	hitPub, hitAud := which != 1, which == 1
+	typ := func(isAudit, notNull bool) string {
+		base := pub
+		if isAudit {
+			base = aud
+		}
+		if ((isAudit && hitAud) || (!isAudit && hitPub)) && notNull == !nullable {
+			return "uuid.UUID"
+		}
+		return base
+	}
+	want := map[string]map[string]string{
+		"Ticket":     {"State": typ(false, true), "Prev": typ(false, false), "Seen": typ(true, true)},
+		"AuditEvent": {"Outcome": typ(true, true), "Before": typ(true, false), "TicketState": typ(false, true)},
+	}
+	var problems []string
+	fw := pkgFiles2(res, "db")
+	if msg := typeCheck(fw); msg != "" {
+		problems = append(problems, "package does not type-check: "+msg)
+	}
+	sum := summarize(fw)
+	obs := J{"ok": true}
+	for _, sn := range []string{"Ticket", "AuditEvent"} {
+		got := map[string]string{}
+		if st := sum.structNamed(sn); st != nil {
+			for _, f := range st.Fields {
+				got[f.Name] = f.Type
+			}
+		}
+		obs["model:"+sn] = got
+		for _, fn := range sortedKeys(want[sn]) {
+			if got[fn] != want[sn][fn] {
+				problems = append(problems, fmt.Sprintf("db_type override %s (nullable=%v): %s.%s is %q, expected %q", dbt, nullable, sn, fn, got[fn], want[sn][fn]))
+			}
+		}
+	}
+	for mn, w := range map[string]string{"TicketState": typ(false, true), "EventOutcome": typ(true, true)} {
+		if m := sum.method(mn); m != nil && (len(m.Results) == 0 || m.Results[0] != w) {
+			problems = append(problems, fmt.Sprintf("db_type override %s: %s returns %v, expected %s", dbt, mn, m.Results, w))
+		}
+	}
+	for mn, w := range map[string]string{"ByState": typ(false, true), "ByOutcome": typ(true, true)} {
+		if m := sum.method(mn); m != nil && (len(m.Params) != 1 || m.Params[0].Type != w) {
+			problems = append(problems, fmt.Sprintf("db_type override %s: %s takes %v, expected %s", dbt, mn, m.Params, w))
 		}
 	}
 	sort.Strings(problems)
